@@ -598,6 +598,12 @@ func c08CLICases(inj []c08Inj, thorough bool) []c08CLICase {
 			out = append(out, c08CLICase{Tool: "bkl", Files: map[string]string{in: content, "in.x." + ext: "a: 1\n"}, Args: []string{"in.x." + ext}})
 		}
 	}
+	// -P (MergeFile instead of MergeFileLayers): inputs that fail to load or to merge must still be reported
+	for _, content := range []string{"a: [\n", "$match: {zz: 1}\nb: 1\n", "a: $required\n", "{\"a\": }\n", "a: 1\n---\n$match: {nope: 1}\nb: 2\n", "$parent: true\n", "a: &x [*x]\n"} {
+		out = append(out, c08CLICase{Tool: "bkl", Files: map[string]string{"in.yaml": content}, Args: []string{"-P", "in.yaml"}})
+		out = append(out, c08CLICase{Tool: "bkl", Files: map[string]string{"in.yaml": content, "ok.yaml": "k: 1\n"}, Args: []string{"-P", "ok.yaml", "in.yaml"}})
+		out = append(out, c08CLICase{Tool: "bkl", Files: map[string]string{"in.yaml": content}, Args: []string{"-P", "-o", "o.json", "in.yaml"}})
+	}
 	// malformed command lines
 	for _, a := range [][]string{{}, {"-f", "nope", "in.json"}, {"missing.json"}, {"in.ini"}, {"-o", "/nonexistent-dir/x.json", "in.json"}, {"--bogus"}, {"in.json", "missing.yaml"}} {
 		for _, t := range []string{"bkl", "bkld", "bkli", "bklr"} {
